@@ -10,7 +10,10 @@ git checkout -q -- . && git clean -fdq
 git apply $D/patch.diff || { echo "RESULT $P/$N patch-does-not-apply"; exit 1; }
 suite=$(cargo test --workspace --no-fail-fast --offline 2>&1 | awk '/^test result/{p+=$4; f+=$6} END {print p"/"f}')
 run_demo() {
-  if [ "$DEST" = "sh" ]; then
+  if [ "$DEST" = "wtsh" ]; then
+    cp $D/$DEMO $WT/$DEMO
+    ( cd $WT && timeout 900 sh $DEMO >/tmp/demo-$P-$N.log 2>&1 ); echo $?
+  elif [ "$DEST" = "sh" ]; then
     cargo build -q --offline -p iwe 2>/dev/null
     bash $D/$DEMO $WT/target/debug/iwe >/tmp/demo-$P-$N.log 2>&1; echo $?
   else
